@@ -167,7 +167,7 @@ impl Wdb2Header {
 
                 // Calculate index array size to skip
                 let index_array_size = if max_index > 0 {
-                    let diff = (max_index - min_index + 1) as u64;
+                    let diff = (i64::from(max_index) - i64::from(min_index) + 1).max(0) as u64;
                     // Index array: diff * 4 bytes (u32 per entry)
                     // String length array: diff * 2 bytes (u16 per entry)
                     diff * 4 + diff * 2
